@@ -172,17 +172,19 @@ Cleanup ==
      /\ UNCHANGED <<pLife, pLease>>
      /\ Log([a |-> "Cleanup", defer |-> Defer])
 
-\* SPDP dispose: DiscoveryDB::remove_participant(p, active_disposal = true) + remote_participant_lost
+\* SPDP dispose: DiscoveryDB::remove_participant(p, active_disposal = true) + remote_participant_lost.  What the attic
+\* holds of p from an earlier time-out goes as well: the participant said it is leaving.
 DisposeP(p) ==
   LET extN == [e \in E |-> ext[e] /\ Owner[e] # p]
+      attN == [e \in E |-> att[e] /\ Owner[e] # p]
       proxN == [pProx EXCEPT ![p] = FALSE]
       w == PartLost(WSide, p)
       r == PartLost(RSide, p)
-  IN /\ pProx' = proxN /\ ext' = extN
+  IN /\ pProx' = proxN /\ ext' = extN /\ att' = attN
      /\ SetSides(w, r)
-     /\ AbsDisposeP(p, Obs(w, r, proxN, extN, att))
+     /\ AbsDisposeP(p, Obs(w, r, proxN, extN, attN))
      /\ UNCHANGED <<lw, lr, cq, flip>>
-     /\ UNCHANGED <<pLife, pLease, att>>
+     /\ UNCHANGED <<pLife, pLease>>
      /\ Log([a |-> "DisposeP", p |-> p, defer |-> Defer])
 
 \* SEDP data: update_subscription / update_publication + remote_reader_discovered / remote_writer_discovered.
